@@ -312,7 +312,8 @@ class HtmlHelper:
             if line_to_parse[non_whitespace_index] == HtmlHelper.__html_tag_start:
                 non_whitespace_index += 1
             is_end_of_tag_present = (
-                line_to_parse[non_whitespace_index] == HtmlHelper.__html_tag_end
+                non_whitespace_index < line_to_parse_size
+                and line_to_parse[non_whitespace_index] == HtmlHelper.__html_tag_end
             )
             if is_end_of_tag_present:
                 non_whitespace_index += 1
